@@ -1,6 +1,6 @@
 (* Single entry point used by the extracted binary and by `Eval vm_compute` case files. *)
 From Coq Require Import List NArith ZArith Bool.
-From Dznpy Require Import Base.PyStr Base.Sexp Run.RunText Run.RunScope Run.RunPorts Run.RunJson Run.RunCpp.
+From Dznpy Require Import Base.PyStr Base.Sexp Run.RunText Run.RunScope Run.RunPorts Run.RunJson Run.RunCpp Run.RunBuild.
 Import ListNotations.
 Open Scope Z_scope.
 
@@ -13,6 +13,8 @@ Definition run (x : sexp) : sexp :=
   else if (t =? 403) then run_dznfile t a
   else if (400 <=? t) && (t <? 500) then run_json t a
   else if (500 <=? t) && (t <? 600) then run_cpp t a
+  else if (t =? 601) then run_build2 t a
+  else if (600 <=? t) && (t <? 700) then run_build t a
   else SL [SI (-1)].
 
 Definition run_all (l : list sexp) : list sexp := map run l.
